@@ -26,7 +26,7 @@ open Ergo.Storage (Bytes LineClass)
 def utf8Enc (cs : List Char) : Bytes := cs.flatMap String.utf8EncodeChar
 
 /-- `utf8.DecodeRune` on the first (at most four) bytes: `none` = invalid or incomplete -/
-def decodeRune? (l : Bytes) : Option Char := (ByteArray.mk (l.take 4).toArray).utf8DecodeChar? 0
+def decodeRune? (l : Bytes) : Option Char := (l.take 4).toByteArray.utf8DecodeChar? 0
 
 def replacement : Char := Char.ofNat 0xFFFD
 
